@@ -1,8 +1,10 @@
 (* CastPass (C02 x C17): a faithful model of remove_redundant_casts_ir (one iteration of its
    while-changed loop, and the loop) and its soundness for ALL annotated SSA graphs: what the pass removes
-   is justified by the translated decision procedure (C17) through the substitution and dead-node lemmas. *)
+   is justified by the translated decision procedure (C17) through the generic rewrite lemmas (Redirect.v).
+   Admissibility (SSA, well-typed inputs, TRUE dtype annotations) of the graph the pass STARTS from is
+   preserved by every iteration (Preserve.v), so the loop theorem assumes nothing about intermediate graphs. *)
 From Coq Require Import ZArith String List Bool Arith Lia.
-From J2O Require Import PyLib Dtype CastSem Tensor Graph C17Cast.
+From J2O Require Import PyLib Dtype CastSem Tensor Graph Redirect Preserve C17Cast.
 From J2OGen Require Import GenCast.
 Import ListNotations.
 
@@ -54,12 +56,16 @@ Definition consumers_of (ns : list node) (v : name) : list node := filter (fun m
 Definition observed (g : agraph) (v : name) : bool :=
   existsb (Nat.eqb v) (ag_outputs g) || existsb (fun m => existsb (Nat.eqb v) (n_caps m)) (ag_nodes g).
 
-Fixpoint remove_first (k : node -> bool) (ns : list node) : list node :=
-  match ns with [] => [] | n :: r => if k n then r else n :: remove_first k r end.
-Definition node_is (o : name) (n : node) : bool := match n_outs n with [y] => Nat.eqb y o | _ => false end.
-
 Definition subst_ag (old new : name) (g : agraph) : agraph :=
   mkAG (map (subst_node old new) (ag_nodes g)) (map (rn old new) (ag_outputs g)) (ag_ann g).
+
+(* the two rewrites the pass is made of, on annotated graphs (Redirect.redirect_remove / Redirect.remove_first):
+   redirect every use of [o] (node inputs, nested captures, graph outputs) to [x] and delete o's producer;
+   delete the producer of [o] *)
+Definition redirect_ag (o x : name) (g : agraph) : agraph :=
+  let r := redirect_remove o x (to_graph g) in mkAG (g_nodes r) (g_outputs r) (ag_ann g).
+Definition remove_ag (o : name) (g : agraph) : agraph :=
+  mkAG (remove_first (node_is o) (ag_nodes g)) (ag_outputs g) (ag_ann g).
 
 Inductive action :=
  | AIdentity (x o : name)                       (* Cast to the declared type of its input *)
@@ -91,6 +97,13 @@ Fixpoint first_action (g : agraph) (ns : list node) : option action :=
 
 Definition apply_action (g : agraph) (a : action) : agraph :=
   match a with
+  | AIdentity x o => redirect_ag o x g
+  | ARoundtrip x o f keep => let g1 := redirect_ag f x g in if keep then g1 else remove_ag o g1
+  end.
+
+(* the same thing spelled out on the node list (the form the model had before Redirect.v existed) *)
+Lemma apply_action_unfold g a : apply_action g a =
+  match a with
   | AIdentity x o =>
       let g1 := subst_ag o x g in mkAG (remove_first (node_is o) (ag_nodes g1)) (ag_outputs g1) (ag_ann g1)
   | ARoundtrip x o f keep =>
@@ -98,10 +111,134 @@ Definition apply_action (g : agraph) (a : action) : agraph :=
       let ns1 := remove_first (node_is f) (ag_nodes g1) in
       mkAG (if keep then ns1 else remove_first (node_is o) ns1) (ag_outputs g1) (ag_ann g1)
   end.
+Proof. destruct a as [x o|x o f [|]]; reflexivity. Qed.
 
 Definition cast_step (g : agraph) : option agraph := option_map (apply_action g) (first_action g (ag_nodes g)).
 Fixpoint cast_pass (fuel : nat) (g : agraph) : agraph :=
   match fuel with O => g | S k => match cast_step g with Some g' => cast_pass k g' | None => g end end.
+
+(* ---------------------------------------------------------------- what a step is (no semantics involved) *)
+Lemma first_action_in g ns a : first_action g ns = Some a -> exists n, In n ns /\ decide g n = Some a.
+Proof.
+  induction ns as [|n r IH]; simpl; [discriminate|]. destruct (decide g n) as [b|] eqn:E.
+  - intro H. injection H as <-. exists n. split; auto.
+  - intro H. destruct (IH H) as (m & Hm & Hd). exists m. split; auto.
+Qed.
+
+Lemma is_cast_spec n x o t : is_cast n = Some (x, o, t) ->
+  n_op n = "Cast"%string /\ n_ins n = [x] /\ n_outs n = [o] /\ (exists k, n_attrs n = [k] /\ t = Z.of_nat k) /\ n_caps n = [].
+Proof.
+  unfold is_cast. destruct (String.eqb_spec (n_op n) "Cast"); [|discriminate].
+  destruct (n_ins n) as [|x' [|]]; try discriminate. destruct (n_outs n) as [|o' [|]]; try discriminate.
+  destruct (n_attrs n) as [|k [|]]; try discriminate. destruct (n_caps n); try discriminate.
+  intro H. injection H as <- <- <-. repeat split; eauto.
+Qed.
+
+Lemma to_graph_subst old new g : to_graph (subst_ag old new g) = replace_all_uses old new (to_graph g).
+Proof. reflexivity. Qed.
+
+Lemma to_graph_redirect o x g : to_graph (redirect_ag o x g) = redirect_remove o x (to_graph g).
+Proof. reflexivity. Qed.
+
+(* consumers: a node outside [consumers_of ns o] does not read o through its inputs *)
+Lemma not_consumer ns o m : In m ns -> ~ In m (consumers_of ns o) -> ~ In o (n_ins m).
+Proof.
+  intros Hm Hn Hin. apply Hn. unfold consumers_of. apply filter_In. split; auto.
+  apply existsb_exists. exists o. split; auto. apply Nat.eqb_refl.
+Qed.
+
+Lemma observed_false g o : observed g o = false ->
+  ~ In o (ag_outputs g) /\ forall m, In m (ag_nodes g) -> ~ In o (n_caps m).
+Proof.
+  unfold observed. intro H. apply orb_false_iff in H as [H1 H2]. split.
+  - intro Hin. assert (existsb (Nat.eqb o) (ag_outputs g) = true) by (apply existsb_exists; exists o; split; auto; apply Nat.eqb_refl). congruence.
+  - intros m Hm Hin.
+    assert (existsb (fun m => existsb (Nat.eqb o) (n_caps m)) (ag_nodes g) = true).
+    { apply existsb_exists. exists m. split; auto. apply existsb_exists. exists o. split; auto. apply Nat.eqb_refl. }
+    congruence.
+Qed.
+
+Lemma remove_first_gone o ns m : NoDup (defs ns) -> node_is o m = true -> ~ In m (remove_first (node_is o) ns).
+Proof.
+  unfold defs. induction ns as [|n r IH]; simpl; intros Hnd Hk Hin; [contradiction|].
+  destruct (node_is o n) eqn:Ekn.
+  - (* n removed; m in r defines o as well: o twice in defs *)
+    apply node_is_outs in Ekn. apply node_is_outs in Hk. rewrite Ekn in Hnd. simpl in Hnd.
+    inversion Hnd as [|? ? Hni _]; subst. apply Hni. apply in_flat_map. exists m. split; auto. rewrite Hk. now left.
+  - destruct Hin as [->|Hin]; [congruence|]. apply IH; auto. eapply NoDup_app_r; eauto.
+Qed.
+
+(* every case in which one iteration changes the graph, with everything the decision established *)
+Inductive step_case (g : agraph) : agraph -> Prop :=
+ | SCIdentity n x o t :
+     In n (ag_nodes g) -> is_cast n = Some (x, o, t) -> ag_ann g x = Some t -> x <> o ->
+     step_case g (redirect_ag o x g)
+ | SCRoundtrip n m x o f s t keep :
+     In n (ag_nodes g) -> In m (ag_nodes g) -> is_cast n = Some (x, o, t) -> is_cast m = Some (o, f, s) ->
+     ag_ann g x = Some s -> cast_roundtrip_is_value_preserving s t = Some true ->
+     x <> o -> x <> f -> o <> f -> consumers_of (ag_nodes g) o = [m] -> observed g o = keep ->
+     step_case g (if keep then redirect_ag f x g else remove_ag o (redirect_ag f x g)).
+
+Lemma cast_step_inv g g' : cast_step g = Some g' -> step_case g g'.
+Proof.
+  intro Hstep. unfold cast_step in Hstep.
+  destruct (first_action g (ag_nodes g)) as [a|] eqn:Efa; [|discriminate]. injection Hstep as <-.
+  destruct (first_action_in g _ _ Efa) as (n & Hn & Hd). unfold decide in Hd.
+  destruct (is_cast n) as [[[x o] t]|] eqn:Ecn; [|discriminate].
+  destruct (ag_ann g x) as [s|] eqn:Ean; [|discriminate].
+  destruct (s =? t)%Z eqn:Est.
+  - apply Z.eqb_eq in Est. subst t.
+    destruct (Nat.eqb_spec x o) as [|Hxo]; [discriminate|]. injection Hd as <-.
+    exact (SCIdentity g n x o s Hn Ecn Ean Hxo).
+  - destruct (consumers_of (ag_nodes g) o) as [|m [|]] eqn:Econs; try discriminate.
+    destruct (is_cast m) as [[[o' f] t2]|] eqn:Ecm; [|discriminate].
+    destruct ((t2 =? s)%Z && _ && negb (Nat.eqb x o) && negb (Nat.eqb x f) && negb (Nat.eqb o f)) eqn:Econd; [|discriminate].
+    injection Hd as <-.
+    repeat (apply andb_prop in Econd as [Econd ?]).
+    apply Z.eqb_eq in Econd. subst t2.
+    assert (Hxo : x <> o) by (intro; subst; rewrite Nat.eqb_refl in *; discriminate).
+    assert (Hxf : x <> f) by (intro; subst; rewrite Nat.eqb_refl in *; discriminate).
+    assert (Hof : o <> f) by (intro; subst; rewrite Nat.eqb_refl in *; discriminate).
+    assert (Hdec : cast_roundtrip_is_value_preserving s t = Some true).
+    { destruct (cast_roundtrip_is_value_preserving s t) as [[|]|]; try discriminate; reflexivity. }
+    assert (Hm : In m (ag_nodes g) /\ In o (n_ins m)).
+    { assert (H' : In m (consumers_of (ag_nodes g) o)) by (rewrite Econs; now left).
+      unfold consumers_of in H'. apply filter_In in H' as [Hf1 Hf2]. split; auto.
+      apply existsb_exists in Hf2 as (y & Hy & E). apply Nat.eqb_eq in E. now subst. }
+    destruct Hm as [Hm Hom].
+    pose proof (is_cast_spec _ _ _ _ Ecm) as (_ & Hin_m & _ & _ & _).
+    rewrite Hin_m in Hom. destruct Hom as [->|[]].
+    exact (SCRoundtrip g n m x o f s t (observed g o) Hn Hm Ecn Ecm Ean Hdec Hxo Hxf Hof Econs eq_refl).
+Qed.
+
+(* after the second cast of a removable pair is gone (uses of f redirected to x, f's producer deleted), no node
+   mentions o: its only input-consumer was the deleted node, and nobody captures it *)
+Lemma roundtrip_o_unmentioned g m x o f :
+  NoDup (defs (ag_nodes g)) -> consumers_of (ag_nodes g) o = [m] -> n_outs m = [f] -> x <> o ->
+  (forall m0, In m0 (ag_nodes g) -> ~ In o (n_caps m0)) ->
+  forall m1 y, In m1 (ag_nodes (redirect_ag f x g)) -> In y (n_uses m1) -> y <> o.
+Proof.
+  intros Hnd Econs Hfm Hxo Hnc m1 y Hm1 Hy Heq. subst y. simpl in Hm1.
+  pose proof Hm1 as Hm1'. apply In_remove_first in Hm1. apply in_map_iff in Hm1 as (m0 & Em0 & Hm0). subst m1.
+  rewrite n_uses_subst in Hy. apply in_map_iff in Hy as (y0 & Hy0 & Hy0in).
+  assert (y0 = o).
+  { unfold rn in Hy0. destruct (Nat.eqb_spec y0 f); [congruence | assumption]. }
+  subst y0. unfold n_uses in Hy0in. apply in_app_or in Hy0in as [Hi|Hc]; [|exact (Hnc m0 Hm0 Hc)].
+  (* m0 reads o through its inputs => m0 is the unique consumer m, whose image was removed *)
+  assert (Hcons : In m0 (consumers_of (ag_nodes g) o)).
+  { unfold consumers_of. apply filter_In. split; auto. apply existsb_exists. exists o. split; auto. apply Nat.eqb_refl. }
+  rewrite Econs in Hcons. destruct Hcons as [<-|[]].
+  (* but the image of m was removed by remove_first (node_is f), and f is defined only once *)
+  revert Hm1'. apply remove_first_gone; [rewrite defs_subst; exact Hnd|].
+  unfold node_is. simpl. rewrite Hfm. apply Nat.eqb_refl.
+Qed.
+
+Lemma roundtrip_o_not_output g x o f : x <> o -> ~ In o (ag_outputs g) ->
+  forall y, In y (ag_outputs (redirect_ag f x g)) -> y <> o.
+Proof.
+  intros Hxo Hno y Hy Heq. subst y. simpl in Hy. apply in_map_iff in Hy as (y0 & Hy0 & Hin0).
+  unfold rn in Hy0. destruct (Nat.eqb_spec y0 f); [congruence|]. subst y0. contradiction.
+Qed.
 
 (* ---------------------------------------------------------------- soundness *)
 Section Sound.
@@ -124,24 +261,6 @@ Section Sound.
     adm_ann : forall ef x c a, evalg (ag_nodes g) e = Some ef -> ag_ann g x = Some c -> ef x = Some a ->
                 dtype_of_code c = Some (tt_dtype a) }.
 
-  Lemma decide_in g n a : decide g n = Some a -> True. Proof. trivial. Qed.
-
-  Lemma first_action_in g ns a : first_action g ns = Some a -> exists n, In n ns /\ decide g n = Some a.
-  Proof.
-    induction ns as [|n r IH]; simpl; [discriminate|]. destruct (decide g n) as [b|] eqn:E.
-    - intro H. injection H as <-. exists n. split; auto.
-    - intro H. destruct (IH H) as (m & Hm & Hd). exists m. split; auto.
-  Qed.
-
-  Lemma is_cast_spec n x o t : is_cast n = Some (x, o, t) ->
-    n_op n = "Cast"%string /\ n_ins n = [x] /\ n_outs n = [o] /\ (exists k, n_attrs n = [k] /\ t = Z.of_nat k) /\ n_caps n = [].
-  Proof.
-    unfold is_cast. destruct (String.eqb_spec (n_op n) "Cast"); [|discriminate].
-    destruct (n_ins n) as [|x' [|]]; try discriminate. destruct (n_outs n) as [|o' [|]]; try discriminate.
-    destruct (n_attrs n) as [|k [|]]; try discriminate. destruct (n_caps n); try discriminate.
-    intro H. injection H as <- <- <-. repeat split; eauto.
-  Qed.
-
   (* value of a Cast node in the final environment *)
   Lemma cast_node_value g e ef n x o t : ssa V (ag_nodes g) e -> evalg (ag_nodes g) e = Some ef -> In n (ag_nodes g) ->
     is_cast n = Some (x, o, t) -> n_caps n = [] ->
@@ -159,24 +278,69 @@ Section Sound.
   Lemma final_wt g e ef : admissible g e -> evalg (ag_nodes g) e = Some ef -> forall x a, ef x = Some a -> wt a.
   Proof. intros [_ Hw _] Hev. eapply (eval_pred V sem wt); eauto. Qed.
 
+  (* THE semantic lemmas: what the decision implies about the final environment of the original run *)
+  Lemma identity_value g e ef n x o t :
+    admissible g e -> evalg (ag_nodes g) e = Some ef -> In n (ag_nodes g) -> is_cast n = Some (x, o, t) ->
+    ag_ann g x = Some t -> forall a, ef o = Some a -> exists b, ef x = Some b /\ tteq a b.
+  Proof.
+    intros Hadm Hev Hin Hc Hann a Ha. destruct (is_cast_spec _ _ _ _ Hc) as (_ & _ & _ & _ & Hcaps).
+    destruct (cast_node_value g e ef n x o t (adm_ssa _ _ Hadm) Hev Hin Hc Hcaps) as (vx & d & Ex & Hd & Eo).
+    rewrite Eo in Ha. injection Ha as <-. exists vx. split; auto.
+    pose proof (adm_ann _ _ Hadm ef x t vx Hev Hann Ex) as Hdt. rewrite Hd in Hdt. injection Hdt as ->.
+    apply tcast_same.
+  Qed.
+
+  Lemma roundtrip_value g e ef n m x o f s t :
+    admissible g e -> evalg (ag_nodes g) e = Some ef -> In n (ag_nodes g) -> In m (ag_nodes g) ->
+    is_cast n = Some (x, o, t) -> is_cast m = Some (o, f, s) ->
+    ag_ann g x = Some s -> cast_roundtrip_is_value_preserving s t = Some true ->
+    forall a, ef f = Some a -> exists b, ef x = Some b /\ tteq a b.
+  Proof.
+    intros Hadm Hev Hn Hm Hcn Hcm Hann Hdec a Ha.
+    destruct (is_cast_spec _ _ _ _ Hcn) as (_ & _ & _ & _ & Hcapn). destruct (is_cast_spec _ _ _ _ Hcm) as (_ & _ & _ & _ & Hcapm).
+    destruct (cast_node_value g e ef n x o t (adm_ssa _ _ Hadm) Hev Hn Hcn Hcapn) as (vx & dt_ & Ex & Hdt & Eo).
+    destruct (cast_node_value g e ef m o f s (adm_ssa _ _ Hadm) Hev Hm Hcm Hcapm) as (vo & ds & Eo' & Hds & Ef).
+    rewrite Eo in Eo'. injection Eo' as <-. rewrite Ef in Ha. injection Ha as <-.
+    exists vx. split; auto.
+    pose proof (adm_ann _ _ Hadm ef x s vx Hev Hann Ex) as Hsx. rewrite Hds in Hsx. injection Hsx as Hsx.
+    apply tcast_roundtrip; auto.
+    - eapply final_wt; eauto.
+    - rewrite (code_of_dtype_of _ _ Hds), (code_of_dtype_of _ _ Hdt). exact Hdec.
+  Qed.
+
+  (* the input of a Cast is available whenever its output is *)
+  Lemma cast_avail g e n x o t : admissible g e -> In n (ag_nodes g) -> is_cast n = Some (x, o, t) ->
+    avail_before V sem (ag_nodes g) e x o.
+  Proof.
+    intros Hadm Hin Hc. destruct (is_cast_spec _ _ _ _ Hc) as (_ & Hi & Ho & _ & _).
+    apply (avail_from_producer V sem (ag_nodes g) e n x o (adm_ssa _ _ Hadm) Hin).
+    - unfold n_uses. rewrite Hi. now left.
+    - rewrite Ho. now left.
+  Qed.
+
+  (* x is available whenever f is: f's producer reads o, o's producer reads x *)
+  Lemma roundtrip_avail g e n m x o f s t : admissible g e -> In n (ag_nodes g) -> In m (ag_nodes g) ->
+    is_cast n = Some (x, o, t) -> is_cast m = Some (o, f, s) -> avail_before V sem (ag_nodes g) e x f.
+  Proof.
+    intros Hadm Hn Hm Hcn Hcm pre post em a Hsplit Hpre Hfa.
+    assert (Ho : em o <> None) by exact (cast_avail g e m o f s Hadm Hm Hcm pre post em a Hsplit Hpre Hfa).
+    destruct (em o) as [vo|] eqn:Eo; [|congruence].
+    exact (cast_avail g e n x o t Hadm Hn Hcn pre post em vo Hsplit Hpre Eo).
+  Qed.
+
   (* STEP 1 of every action: redirecting the uses is sound *)
   Theorem identity_redirect_sound g e n x o t :
     admissible g e -> In n (ag_nodes g) -> is_cast n = Some (x, o, t) -> n_caps n = [] -> ag_ann g x = Some t ->
     refinesg (to_graph g) (replace_all_uses o x (to_graph g)) e.
   Proof.
-    intros Hadm Hin Hc Hcaps Hann out Hrun.
+    intros Hadm Hin Hc _ Hann out Hrun.
     assert (Hev : exists ef, evalg (ag_nodes g) e = Some ef).
     { unfold run in Hrun. simpl in Hrun. destruct (evalg (ag_nodes g) e); [eauto|discriminate]. }
-    destruct Hev as [ef Hev]. destruct (is_cast_spec _ _ _ _ Hc) as (_ & Hi & Ho & _ & _).
+    destruct Hev as [ef Hev].
     refine (replace_all_uses_sound V tteq tteq_refl tteq_sym tteq_trans sem sem_proper o x (to_graph g) e _ out Hrun).
     apply (prefix_inv_from_final V tteq sem o x (ag_nodes g) e ef (adm_ssa _ _ Hadm) Hev).
-    - intros a Ha. destruct (cast_node_value g e ef n x o t (adm_ssa _ _ Hadm) Hev Hin Hc Hcaps) as (vx & d & Ex & Hd & Eo).
-      rewrite Eo in Ha. injection Ha as <-. exists vx. split; auto.
-      pose proof (adm_ann _ _ Hadm ef x t vx Hev Hann Ex) as Hdt. rewrite Hd in Hdt. injection Hdt as ->.
-      apply tcast_same.
-    - apply (avail_from_producer V sem (ag_nodes g) e n x o (adm_ssa _ _ Hadm) Hin).
-      + unfold n_uses. rewrite Hi. now left.
-      + rewrite Ho. now left.
+    - exact (identity_value g e ef n x o t Hadm Hev Hin Hc Hann).
+    - exact (cast_avail g e n x o t Hadm Hin Hc).
   Qed.
 
   Theorem roundtrip_redirect_sound g e n m x o f s t :
@@ -185,266 +349,155 @@ Section Sound.
     ag_ann g x = Some s -> cast_roundtrip_is_value_preserving s t = Some true ->
     refinesg (to_graph g) (replace_all_uses f x (to_graph g)) e.
   Proof.
-    intros Hadm Hn Hm Hcn Hcapn Hcm Hcapm Hann Hdec out Hrun.
+    intros Hadm Hn Hm Hcn _ Hcm _ Hann Hdec out Hrun.
     assert (Hev : exists ef, evalg (ag_nodes g) e = Some ef).
     { unfold run in Hrun. simpl in Hrun. destruct (evalg (ag_nodes g) e); [eauto|discriminate]. }
     destruct Hev as [ef Hev].
-    destruct (is_cast_spec _ _ _ _ Hcn) as (_ & Hin_ & Hon & _ & _). destruct (is_cast_spec _ _ _ _ Hcm) as (_ & Him & Hom & _ & _).
     refine (replace_all_uses_sound V tteq tteq_refl tteq_sym tteq_trans sem sem_proper f x (to_graph g) e _ out Hrun).
     apply (prefix_inv_from_final V tteq sem f x (ag_nodes g) e ef (adm_ssa _ _ Hadm) Hev).
-    - intros a Ha.
-      destruct (cast_node_value g e ef n x o t (adm_ssa _ _ Hadm) Hev Hn Hcn Hcapn) as (vx & dt_ & Ex & Hdt & Eo).
-      destruct (cast_node_value g e ef m o f s (adm_ssa _ _ Hadm) Hev Hm Hcm Hcapm) as (vo & ds & Eo' & Hds & Ef).
-      rewrite Eo in Eo'. injection Eo' as <-. rewrite Ef in Ha. injection Ha as <-.
-      exists vx. split; auto.
-      pose proof (adm_ann _ _ Hadm ef x s vx Hev Hann Ex) as Hsx. rewrite Hds in Hsx. injection Hsx as Hsx.
-      apply tcast_roundtrip; auto.
-      + eapply final_wt; eauto.
-      + rewrite (code_of_dtype_of _ _ Hds), (code_of_dtype_of _ _ Hdt). exact Hdec.
-    - (* x is available whenever f is: f's producer reads o, o's producer reads x *)
-      intros pre post em a Hsplit Hpre Hfa.
-      assert (Ho : em o <> None).
-      { eapply (avail_from_producer V sem (ag_nodes g) e m o f (adm_ssa _ _ Hadm) Hm); eauto.
-        - unfold n_uses. rewrite Him. now left.
-        - rewrite Hom. now left. }
-      destruct (em o) as [vo|] eqn:Eo; [|congruence].
-      eapply (avail_from_producer V sem (ag_nodes g) e n x o (adm_ssa _ _ Hadm) Hn); eauto.
-      + unfold n_uses. rewrite Hin_. now left.
-      + rewrite Hon. now left.
-  Qed.
-End Sound.
-
-(* ---------------------------------------------------------------- removal and the whole step *)
-Lemma rn_neq old new y : new <> old -> rn old new y <> old.
-Proof. intro H. unfold rn. destruct (Nat.eqb_spec y old); congruence. Qed.
-
-Lemma remove_first_split k pre n post : k n = true -> (forall m, In m pre -> k m = false) ->
-  remove_first k (pre ++ n :: post) = pre ++ post.
-Proof.
-  intros Hk Hp. induction pre as [|m pre IH]; simpl; [now rewrite Hk|].
-  rewrite (Hp m) by now left. f_equal. apply IH. intros; apply Hp; now right.
-Qed.
-
-Lemma remove_first_none k ns : (forall m, In m ns -> k m = false) -> remove_first k ns = ns.
-Proof. induction ns as [|m r IH]; simpl; intro H; auto. rewrite (H m) by now left. f_equal. apply IH. intros; apply H; now right. Qed.
-
-Section Step.
-  Variable sem : string -> list nat -> list ttensor -> option (list ttensor).
-  Hypothesis sem_proper : forall op ats vs vs' o, Forall2 tteq vs vs' -> sem op ats vs = Some o ->
-    exists o', sem op ats vs' = Some o' /\ Forall2 tteq o o'.
-  Notation V := ttensor.
-  Notation refinesg := (refines V tteq sem).
-
-  (* removing the node that defines [o] from a graph in which nothing mentions [o] any more *)
-  Lemma remove_unmentioned ns outs o e :
-    NoDup (defs ns) ->
-    (forall m y, In m ns -> In y (n_uses m) -> y <> o) -> (forall y, In y outs -> y <> o) ->
-    refinesg (mkGraph ns outs) (mkGraph (remove_first (node_is o) ns) outs) e.
-  Proof.
-    intros Hnd Huses Houts.
-    destruct (existsb (node_is o) ns) eqn:Ex.
-    - apply existsb_exists in Ex as (n & Hin & Hk).
-      (* split at the FIRST node with outs = [o]; by NoDup it is the only one *)
-      assert (Hsplit : exists pre post n0, ns = pre ++ n0 :: post /\ node_is o n0 = true /\ forall m, In m pre -> node_is o m = false).
-      { clear - Hin Hk. induction ns as [|m r IH]; [contradiction|].
-        destruct (node_is o m) eqn:Em.
-        - exists [], r, m. repeat split; auto. intros ? [].
-        - destruct Hin as [->|Hin]; [congruence|]. destruct (IH Hin) as (pre & post & n0 & -> & Hn0 & Hp).
-          exists (m :: pre), post, n0. repeat split; auto. intros m' [<-|H]; auto. }
-      destruct Hsplit as (pre & post & n0 & -> & Hn0 & Hp).
-      rewrite (remove_first_split _ _ _ _ Hn0 Hp).
-      assert (Ho : n_outs n0 = [o]).
-      { unfold node_is in Hn0. destruct (n_outs n0) as [|y [|]]; try discriminate. apply Nat.eqb_eq in Hn0. now subst. }
-      apply (remove_node_sound V tteq tteq_refl sem pre n0 post outs e).
-      + intros m y Hm Hy. rewrite Ho. intros [E|[]].
-        assert (Hm' : In m (pre ++ n0 :: post)) by (apply in_or_app; right; now right).
-        apply (Huses m y Hm' Hy). now symmetry.
-      + intros y Hy. rewrite Ho. intros [E|[]]. apply (Houts y Hy). now symmetry.
-    - assert (Hnone : forall m, In m ns -> node_is o m = false).
-      { intros m Hm. destruct (node_is o m) eqn:E; auto.
-        assert (existsb (node_is o) ns = true) by (apply existsb_exists; eauto). congruence. }
-      rewrite (remove_first_none _ _ Hnone). intros out Hrun. exists out. split; auto.
-      clear. induction out; constructor; auto. apply tteq_refl.
-  Qed.
-End Step.
-
-(* ---------------------------------------------------------------- the whole step and the pass *)
-Section PassSound.
-  Variable sem : string -> list nat -> list ttensor -> option (list ttensor).
-  Hypothesis sem_proper : forall op ats vs vs' o, Forall2 tteq vs vs' -> sem op ats vs = Some o ->
-    exists o', sem op ats vs' = Some o' /\ Forall2 tteq o o'.
-  Hypothesis sem_wt : forall op ats vs o, Forall wt vs -> sem op ats vs = Some o -> Forall wt o.
-  Hypothesis sem_cast : forall t vs o, sem "Cast" [t] vs = Some o ->
-    exists x d, vs = [x] /\ dtype_of_code (Z.of_nat t) = Some d /\ o = [tcast d x].
-  Notation V := ttensor.
-  Notation refinesg := (refines V tteq sem).
-
-  Lemma defs_subst old new ns : defs (map (subst_node old new) ns) = defs ns.
-  Proof. unfold defs. induction ns as [|n r IH]; simpl; auto. now rewrite IH. Qed.
-
-  Lemma uses_subst_neq old new ns m y : new <> old -> In m (map (subst_node old new) ns) -> In y (n_uses m) -> y <> old.
-  Proof.
-    intros Hne Hm Hy. apply in_map_iff in Hm as (m0 & <- & _). rewrite n_uses_subst in Hy.
-    apply in_map_iff in Hy as (y0 & <- & _). now apply rn_neq.
+    - exact (roundtrip_value g e ef n m x o f s t Hadm Hev Hn Hm Hcn Hcm Hann Hdec).
+    - exact (roundtrip_avail g e n m x o f s t Hadm Hn Hm Hcn Hcm).
   Qed.
 
-  Lemma outs_subst_neq old new outs y : new <> old -> In y (map (rn old new) outs) -> y <> old.
-  Proof. intros Hne Hy. apply in_map_iff in Hy as (y0 & <- & _). now apply rn_neq. Qed.
-
-  Lemma to_graph_subst old new g : to_graph (subst_ag old new g) = replace_all_uses old new (to_graph g).
-  Proof. reflexivity. Qed.
-
-  (* consumers: a node outside [consumers_of ns o] does not read o through its inputs *)
-  Lemma not_consumer ns o m : In m ns -> ~ In m (consumers_of ns o) -> ~ In o (n_ins m).
-  Proof.
-    intros Hm Hn Hin. apply Hn. unfold consumers_of. apply filter_In. split; auto.
-    apply existsb_exists. exists o. split; auto. apply Nat.eqb_refl.
-  Qed.
-
-  Lemma observed_false g o : observed g o = false ->
-    ~ In o (ag_outputs g) /\ forall m, In m (ag_nodes g) -> ~ In o (n_caps m).
-  Proof.
-    unfold observed. intro H. apply orb_false_iff in H as [H1 H2]. split.
-    - intro Hin. assert (existsb (Nat.eqb o) (ag_outputs g) = true) by (apply existsb_exists; exists o; split; auto; apply Nat.eqb_refl). congruence.
-    - intros m Hm Hin.
-      assert (existsb (fun m => existsb (Nat.eqb o) (n_caps m)) (ag_nodes g) = true).
-      { apply existsb_exists. exists m. split; auto. apply existsb_exists. exists o. split; auto. apply Nat.eqb_refl. }
-      congruence.
-  Qed.
-
-  Lemma In_remove_first k ns m : In m (remove_first k ns) -> In m ns.
-  Proof. induction ns as [|n r IH]; simpl; [tauto|]. destruct (k n); [now right|]. intros [->|H]; [now left | right; auto]. Qed.
-
-  Lemma NoDup_defs_remove_first k ns : NoDup (defs ns) -> NoDup (defs (remove_first k ns)).
-  Proof.
-    unfold defs. induction ns as [|n r IH]; simpl; intro H; auto.
-    destruct (k n); [eapply NoDup_app_r; eauto|]. simpl.
-    (* NoDup (outs n ++ defs r) -> NoDup (outs n ++ defs (remove_first r)) *)
-    assert (Hincl : forall y, In y (flat_map n_outs (remove_first k r)) -> In y (flat_map n_outs r)).
-    { intros y Hy. apply in_flat_map in Hy as (m & Hm & Hy). apply in_flat_map. exists m. split; auto. now apply (In_remove_first k r m). }
-    revert H. generalize (n_outs n) as l. induction l as [|a l IHl]; simpl; intro H; [apply IH; exact H|].
-    inversion H as [|? ? Hni Hnd]; subst. constructor; [|now apply IHl].
-    intro Hin. apply Hni. apply in_app_or in Hin as [Hin|Hin]; apply in_or_app; [now left | right; now apply Hincl].
-  Qed.
-
-  Lemma node_is_outs o m : node_is o m = true -> n_outs m = [o].
-  Proof. unfold node_is. destruct (n_outs m) as [|y [|]]; try discriminate. intro H. apply Nat.eqb_eq in H. now subst. Qed.
-
-  Lemma remove_first_gone o ns m : NoDup (defs ns) -> node_is o m = true -> ~ In m (remove_first (node_is o) ns).
-  Proof.
-    unfold defs. induction ns as [|n r IH]; simpl; intros Hnd Hk Hin; [contradiction|].
-    destruct (node_is o n) eqn:Ekn.
-    - (* n removed; m in r defines o as well: o twice in defs *)
-      apply node_is_outs in Ekn. apply node_is_outs in Hk. rewrite Ekn in Hnd. simpl in Hnd.
-      inversion Hnd as [|? ? Hni _]; subst. apply Hni. apply in_flat_map. exists m. split; auto. rewrite Hk. now left.
-    - destruct Hin as [->|Hin]; [congruence|]. apply IH; auto. eapply NoDup_app_r; eauto.
-  Qed.
-
+  (* ---------------------------------------------------------------- the whole step *)
   (* ONE ITERATION of the pass is sound for every admissible annotated graph *)
   Theorem cast_step_sound g g' e :
-    admissible sem g e -> cast_step g = Some g' -> refinesg (to_graph g) (to_graph g') e.
+    admissible g e -> cast_step g = Some g' -> refinesg (to_graph g) (to_graph g') e.
   Proof.
-    intros Hadm Hstep. unfold cast_step in Hstep.
-    destruct (first_action g (ag_nodes g)) as [a|] eqn:Efa; [|discriminate]. injection Hstep as <-.
-    destruct (first_action_in g _ _ Efa) as (n & Hn & Hd). unfold decide in Hd.
-    destruct (is_cast n) as [[[x o] t]|] eqn:Ecn; [|discriminate].
-    destruct (ag_ann g x) as [s|] eqn:Ean; [|discriminate].
-    pose proof (is_cast_spec _ _ _ _ Ecn) as (_ & Hin_n & Hon & _ & Hcapn).
-    pose proof (adm_ssa _ _ _ Hadm) as [Hnd _].
-    destruct (s =? t)%Z eqn:Est.
+    intros Hadm Hstep. pose proof (adm_ssa _ _ Hadm) as Hssa.
+    destruct (cast_step_inv _ _ Hstep) as [n x o t Hn Hc Hann Hxo | n m x o f s t keep Hn Hm Hcn Hcm Hann Hdec Hxo Hxf Hof Hcons Hobs].
     - (* identity cast *)
-      apply Z.eqb_eq in Est. subst t.
-      destruct (Nat.eqb_spec x o) as [|Hxo]; [discriminate|]. injection Hd as <-.
-      eapply (refines_trans V tteq tteq_trans sem).
-      + eapply identity_redirect_sound; eauto.
-      + simpl. apply remove_unmentioned.
-        * rewrite defs_subst. exact Hnd.
-        * intros m y Hm Hy. apply (uses_subst_neq o x (ag_nodes g) m y Hxo Hm Hy).
-        * intros y Hy. apply (outs_subst_neq o x (ag_outputs g) y Hxo Hy).
-    - (* round trip *)
-      destruct (consumers_of (ag_nodes g) o) as [|m [|]] eqn:Econs; try discriminate.
-      destruct (is_cast m) as [[[o' f] t2]|] eqn:Ecm; [|discriminate].
-      destruct ((t2 =? s)%Z && _ && negb (Nat.eqb x o) && negb (Nat.eqb x f) && negb (Nat.eqb o f)) eqn:Econd; [|discriminate].
-      injection Hd as <-.
-      repeat (apply andb_prop in Econd as [Econd ?]).
-      apply Z.eqb_eq in Econd. subst t2.
-      assert (Hxo : x <> o) by (intro; subst; rewrite Nat.eqb_refl in *; discriminate).
-      assert (Hxf : x <> f) by (intro; subst; rewrite Nat.eqb_refl in *; discriminate).
-      assert (Hof : o <> f) by (intro; subst; rewrite Nat.eqb_refl in *; discriminate).
-      assert (Hdec : cast_roundtrip_is_value_preserving s t = Some true).
-      { destruct (cast_roundtrip_is_value_preserving s t) as [[|]|]; try discriminate; reflexivity. }
-      assert (Hm : In m (ag_nodes g) /\ In o (n_ins m)).
-      { assert (H' : In m (consumers_of (ag_nodes g) o)) by (rewrite Econs; now left).
-        unfold consumers_of in H'. apply filter_In in H' as [Hf1 Hf2]. split; auto.
-        apply existsb_exists in Hf2 as (y & Hy & E). apply Nat.eqb_eq in E. now subst. }
-      destruct Hm as [Hm Hom].
-      pose proof (is_cast_spec _ _ _ _ Ecm) as (_ & Hin_m & Hfm & _ & Hcapm).
-      rewrite Hin_m in Hom. destruct Hom as [->|[]].
-      (* 1. redirect f -> x *)
-      eapply (refines_trans V tteq tteq_trans sem).
-      { eapply (roundtrip_redirect_sound sem sem_proper sem_wt sem_cast g e n m x o f s t); eauto. }
-      (* 2. remove the second cast (defines f; nothing mentions f any more) *)
-      set (g1 := subst_ag f x g).
-      eapply (refines_trans V tteq tteq_trans sem).
-      { change (replace_all_uses f x (to_graph g)) with (mkGraph (ag_nodes g1) (ag_outputs g1)).
-        apply (remove_unmentioned sem (ag_nodes g1) (ag_outputs g1) f e).
-        - unfold g1, subst_ag. cbn [ag_nodes]. rewrite defs_subst. exact Hnd.
-        - intros m0 y Hm0 Hy. unfold g1 in Hm0. simpl in Hm0. apply (uses_subst_neq f x (ag_nodes g) m0 y Hxf Hm0 Hy).
-        - intros y Hy. unfold g1 in Hy. simpl in Hy. apply (outs_subst_neq f x (ag_outputs g) y Hxf Hy). }
-      (* 3. optionally remove the first cast *)
-      simpl. destruct (observed g o) eqn:Eobs.
-      { intros out Hrun. exists out. split; auto. clear. induction out; constructor; auto. apply tteq_refl. }
-      apply observed_false in Eobs as [Hno Hnc].
-      apply remove_unmentioned.
-      + apply NoDup_defs_remove_first. rewrite defs_subst. exact Hnd.
-      + (* no remaining node mentions o: its only input-consumer was m (removed), nobody captures it *)
-        intros m1 y Hm1 Hy Heq. subst y.
-        pose proof Hm1 as Hm1'. apply In_remove_first in Hm1. apply in_map_iff in Hm1 as (m0 & Em0 & Hm0). subst m1.
-        rewrite n_uses_subst in Hy. apply in_map_iff in Hy as (y0 & Hy0 & Hy0in).
-        assert (y0 = o).
-        { unfold rn in Hy0. destruct (Nat.eqb_spec y0 f); [congruence | assumption]. }
-        subst y0. unfold n_uses in Hy0in. apply in_app_or in Hy0in as [Hi|Hc]; [|exact (Hnc m0 Hm0 Hc)].
-        (* m0 reads o through its inputs => m0 is the unique consumer m, whose image was removed *)
-        assert (Hcons : In m0 (consumers_of (ag_nodes g) o)).
-        { unfold consumers_of. apply filter_In. split; auto. apply existsb_exists. exists o. split; auto. apply Nat.eqb_refl. }
-        rewrite Econs in Hcons. destruct Hcons as [<-|[]].
-        (* but the image of m was removed by remove_first (node_is f), and f is defined only once *)
-        revert Hm1'. apply remove_first_gone; [rewrite defs_subst; exact Hnd|].
-        unfold node_is. simpl. rewrite Hfm. apply Nat.eqb_refl.
-      + intros y Hy Heq. subst y. apply in_map_iff in Hy as (y0 & Hy0 & Hin0).
-        unfold rn in Hy0. destruct (Nat.eqb_spec y0 f); [congruence|]. subst y0. contradiction.
+      rewrite to_graph_redirect.
+      apply (redirect_remove_sound V tteq tteq_refl tteq_sym tteq_trans sem sem_proper (to_graph g) e o x Hssa Hxo).
+      + intros ef a Hev. exact (identity_value g e ef n x o t Hadm Hev Hn Hc Hann a).
+      + exact (cast_avail g e n x o t Hadm Hn Hc).
+    - (* round trip: 1. redirect f -> x and remove the second cast *)
+      assert (H1 : refinesg (to_graph g) (to_graph (redirect_ag f x g)) e).
+      { rewrite to_graph_redirect.
+        apply (redirect_remove_sound V tteq tteq_refl tteq_sym tteq_trans sem sem_proper (to_graph g) e f x Hssa Hxf).
+        - intros ef a Hev. exact (roundtrip_value g e ef n m x o f s t Hadm Hev Hn Hm Hcn Hcm Hann Hdec a).
+        - exact (roundtrip_avail g e n m x o f s t Hadm Hn Hm Hcn Hcm). }
+      destruct keep; [exact H1|].
+      (* 2. nothing observes o: remove the first cast as well *)
+      eapply (refines_trans V tteq tteq_trans sem); [exact H1|].
+      apply observed_false in Hobs as [Hno Hnc].
+      pose proof (is_cast_spec _ _ _ _ Hcm) as (_ & _ & Hfm & _ & _).
+      apply (remove_unmentioned V tteq tteq_refl sem (ag_nodes (redirect_ag f x g)) (ag_outputs (redirect_ag f x g)) o e).
+      + exact (proj1 (redirect_remove_ssa V (to_graph g) e f x Hssa)).
+      + exact (roundtrip_o_unmentioned g m x o f (proj1 Hssa) Hcons Hfm Hxo Hnc).
+      + exact (roundtrip_o_not_output g x o f Hxo Hno).
   Qed.
-End PassSound.
 
-(* ---------------------------------------------------------------- the whole pass (the while-changed loop) *)
-Section PassLoop.
-  Variable sem : string -> list nat -> list ttensor -> option (list ttensor).
-  Hypothesis sem_proper : forall op ats vs vs' o, Forall2 tteq vs vs' -> sem op ats vs = Some o ->
-    exists o', sem op ats vs' = Some o' /\ Forall2 tteq o o'.
-  Hypothesis sem_wt : forall op ats vs o, Forall wt vs -> sem op ats vs = Some o -> Forall wt o.
-  Hypothesis sem_cast : forall t vs o, sem "Cast" [t] vs = Some o ->
-    exists x d, vs = [x] /\ dtype_of_code (Z.of_nat t) = Some d /\ o = [tcast d x].
+  (* ---------------------------------------------------------------- admissibility is PRESERVED by the step
+     (values are preserved up to tteq, which keeps the dtype; the removed names are no longer defined), so the
+     admissibility of the INPUT graph is all the loop needs *)
+  Lemma redirect_admissible g e ef n o x :
+    admissible g e -> evalg (ag_nodes g) e = Some ef -> x <> o -> In n (ag_nodes g) -> n_outs n = [o] ->
+    (forall a, ef o = Some a -> exists b, ef x = Some b /\ tteq a b) ->
+    avail_before V sem (ag_nodes g) e x o ->
+    admissible (redirect_ag o x g) e /\ exists ef', evalg (ag_nodes (redirect_ag o x g)) e = Some ef'.
+  Proof.
+    intros Hadm Hev Hne Hn Houts Hval Hav. pose proof (adm_ssa _ _ Hadm) as Hssa.
+    destruct (redirect_remove_env V tteq tteq_refl tteq_sym tteq_trans sem sem_proper (to_graph g) e o x ef Hssa Hne Hval Hav Hev)
+      as (ef' & Hev' & Hrel).
+    assert (Hex : existsb (node_is o) (ag_nodes g) = true).
+    { apply existsb_exists. exists n. split; auto. unfold node_is. rewrite Houts. apply Nat.eqb_refl. }
+    pose proof (redirect_remove_o_undefined V sem (to_graph g) e o x ef' Hssa Hex Hev') as Hundef.
+    split; [|exists ef'; exact Hev'].
+    constructor.
+    - exact (redirect_remove_ssa V (to_graph g) e o x Hssa).
+    - exact (adm_wt _ _ Hadm).
+    - intros ef2 y c a' Hev2 Hc Hy.
+      assert (Heq : ef2 = ef').
+      { change (evalg (g_nodes (redirect_remove o x (to_graph g))) e = Some ef2) in Hev2. congruence. }
+      subst ef2. destruct (Nat.eq_dec y o) as [->|Hyo]; [congruence|].
+      destruct (Hrel y a' Hyo Hy) as (a0 & Ha0 & [Hdt _]).
+      rewrite <- Hdt. exact (adm_ann _ _ Hadm ef y c a0 Hev Hc Ha0).
+  Qed.
 
-  (* every graph the loop passes through is admissible (SSA, well-typed inputs, true annotations) *)
+  Lemma remove_admissible g e ef o :
+    admissible g e -> evalg (ag_nodes g) e = Some ef ->
+    (forall m y, In m (ag_nodes g) -> In y (n_uses m) -> y <> o) ->
+    admissible (remove_ag o g) e.
+  Proof.
+    intros Hadm Hev Huses. pose proof (adm_ssa _ _ Hadm) as [Hnd Hfree].
+    destruct (remove_unmentioned_env V sem (ag_nodes g) o e ef Huses Hev) as (ef' & Hev' & Hag).
+    constructor.
+    - split; simpl.
+      + apply NoDup_defs_remove_first. exact Hnd.
+      + intros y Hy. apply Hfree. eapply defs_remove_first_incl; exact Hy.
+    - exact (adm_wt _ _ Hadm).
+    - intros ef2 y c a Hev2 Hc Hy.
+      assert (Heq : ef2 = ef').
+      { change (evalg (remove_first (node_is o) (ag_nodes g)) e = Some ef2) in Hev2. congruence. }
+      subst ef2. change (ag_ann g y = Some c) in Hc.
+      destruct (Nat.eq_dec y o) as [->|Hyo].
+      + destruct (existsb (node_is o) (ag_nodes g)) eqn:Ex.
+        * (* o's producer was removed: o is not defined any more *)
+          exfalso. assert (Hundef : ef' o = None).
+          { eapply (eval_undefined V sem); [exact Hev' | | apply defs_remove_first_notin; auto].
+            apply Hfree. apply existsb_exists in Ex as (m & Hm & Hk). apply node_is_outs in Hk.
+            unfold defs. apply in_flat_map. exists m. split; auto. rewrite Hk. now left. }
+          congruence.
+        * (* no such node: nothing was removed *)
+          assert (Hnone : forall m, In m (ag_nodes g) -> node_is o m = false).
+          { intros m Hm. destruct (node_is o m) eqn:E; auto.
+            assert (existsb (node_is o) (ag_nodes g) = true) by (apply existsb_exists; eauto). congruence. }
+          rewrite (remove_first_none _ _ Hnone) in Hev'.
+          assert (ef' = ef) by congruence. subst ef'.
+          exact (adm_ann _ _ Hadm ef o c a Hev Hc Hy).
+      + rewrite <- (Hag y) in Hy by (intros [E|[]]; congruence).
+        exact (adm_ann _ _ Hadm ef y c a Hev Hc Hy).
+  Qed.
+
+  Theorem cast_step_admissible g g' e ef :
+    admissible g e -> evalg (ag_nodes g) e = Some ef -> cast_step g = Some g' -> admissible g' e.
+  Proof.
+    intros Hadm Hev Hstep. pose proof (adm_ssa _ _ Hadm) as Hssa.
+    destruct (cast_step_inv _ _ Hstep) as [n x o t Hn Hc Hann Hxo | n m x o f s t keep Hn Hm Hcn Hcm Hann Hdec Hxo Hxf Hof Hcons Hobs].
+    - pose proof (is_cast_spec _ _ _ _ Hc) as (_ & _ & Ho & _ & _).
+      exact (proj1 (redirect_admissible g e ef n o x Hadm Hev Hxo Hn Ho
+                      (identity_value g e ef n x o t Hadm Hev Hn Hc Hann) (cast_avail g e n x o t Hadm Hn Hc))).
+    - pose proof (is_cast_spec _ _ _ _ Hcm) as (_ & _ & Hfm & _ & _).
+      destruct (redirect_admissible g e ef m f x Hadm Hev Hxf Hm Hfm
+                  (roundtrip_value g e ef n m x o f s t Hadm Hev Hn Hm Hcn Hcm Hann Hdec)
+                  (roundtrip_avail g e n m x o f s t Hadm Hn Hm Hcn Hcm)) as [Hadm1 [ef1 Hev1]].
+      destruct keep; [exact Hadm1|].
+      apply observed_false in Hobs as [Hno Hnc].
+      apply (remove_admissible (redirect_ag f x g) e ef1 o Hadm1 Hev1).
+      exact (roundtrip_o_unmentioned g m x o f (proj1 Hssa) Hcons Hfm Hxo Hnc).
+  Qed.
+
+  (* ---------------------------------------------------------------- the whole pass (the while-changed loop) *)
+  (* THE PASS: for every graph that is admissible when the pass starts *)
+  Theorem cast_pass_sound_strong : forall fuel g e, admissible g e ->
+    refinesg (to_graph g) (to_graph (cast_pass fuel g)) e.
+  Proof.
+    induction fuel as [|k IH]; simpl; intros g e Hadm.
+    - apply (refines_refl V tteq tteq_refl sem).
+    - destruct (cast_step g) as [g'|] eqn:Es; [|apply (refines_refl V tteq tteq_refl sem)].
+      intros out Hrun.
+      assert (Hev : exists ef, evalg (ag_nodes g) e = Some ef).
+      { unfold run in Hrun. simpl in Hrun. destruct (evalg (ag_nodes g) e); [eauto|discriminate]. }
+      destruct Hev as [ef Hev].
+      pose proof (cast_step_admissible g g' e ef Hadm Hev Es) as Hadm'.
+      revert out Hrun. eapply (refines_trans V tteq tteq_trans sem).
+      + eapply cast_step_sound; eauto.
+      + apply IH. exact Hadm'.
+  Qed.
+
+  (* the earlier, weaker form: every graph the loop passes through is ASSUMED admissible *)
   Fixpoint admissible_along (fuel : nat) (g : agraph) (e : env ttensor) : Prop :=
-    admissible sem g e /\
+    admissible g e /\
     match fuel with
     | O => True
     | S k => match cast_step g with Some g' => admissible_along k g' e | None => True end
     end.
 
-  Theorem cast_pass_sound : forall fuel g e, admissible_along fuel g e ->
+  Corollary cast_pass_sound : forall fuel g e, admissible_along fuel g e ->
     refines ttensor tteq sem (to_graph g) (to_graph (cast_pass fuel g)) e.
-  Proof.
-    induction fuel as [|k IH]; simpl; intros g e [Hadm Hrest].
-    - intros out Hrun. exists out. split; auto. clear. induction out; constructor; auto. apply tteq_refl.
-    - destruct (cast_step g) as [g'|] eqn:Es.
-      + eapply (refines_trans ttensor tteq tteq_trans sem).
-        * eapply cast_step_sound; eauto.
-        * apply IH. exact Hrest.
-      + intros out Hrun. exists out. split; auto. clear. induction out; constructor; auto. apply tteq_refl.
-  Qed.
-End PassLoop.
+  Proof. intros fuel g e H. apply cast_pass_sound_strong. destruct fuel; exact (proj1 H). Qed.
+End Sound.
 
 (* non-vacuity: the pass model really removes a lossless pair and keeps a lossy one *)
 Definition ex_ann (n : name) : option Z := match n with 0 => Some 1%Z | 1 => Some 11%Z | 2 => Some 1%Z | _ => None end.
